@@ -32,6 +32,8 @@ inductive ExecArg (ε : Type)
 inductive XErr
   | needsParallel          -- "Cannot use an executor without `parallel=True`." (`prepare_run`, before anything else)
   | noExecutor (g : Nat) (outs : List String)   -- "No executor found for output …" when generation `g` is submitted
+  | badKey                 -- `_validate_executor_names`: a key that is neither "" nor an output name (`prepare_run`)
+  | uncovered (outs : List String)              -- `_validate_executor_names`: no "" default and no entry for this function
   deriving DecidableEq, Repr
 
 /-- `prepare_run :49-58`: `if not parallel and executor: raise` (an empty dictionary is falsy), a single executor becomes
@@ -45,6 +47,24 @@ def normalise {ε} (parallel : Bool) : ExecArg ε → Except XErr (Option (List 
 def maybeExecutor {ε} (parallel : Bool) (pool : ε) : Option (List (XKey × ε)) → Option (List (XKey × ε))
   | none => if parallel then some [(XKey.default, pool)] else none
   | some d => some d
+
+/-- a key names an output of the pipeline (`pipeline.output_to_func`: every `func.output_name`, and for a tuple also each of its names) -/
+def knownKey (fns : List (List String)) : XKey → Bool
+  | .name s => fns.any fun outs => outs.contains s
+  | .tuple l => fns.any fun outs => 2 ≤ outs.length && outs == l
+
+/-- `_validate_executor_names` (`prepare_run`, right after the normalisation; added by the DF-C12-executor-dict repair): every key
+    is `""` or an output name, and without a `""` default every function has its own entry.  Both refusals happen before the run
+    folder is touched and before any user function runs. -/
+def validateNames {ε} (d : Option (List (XKey × ε))) (fns : List (List String)) : Except XErr Unit :=
+  match d with
+  | none => pure ()
+  | some d =>
+    if d.any (fun kv => kv.1 != XKey.default && !knownKey fns kv.1) then throw .badKey
+    else if (klookup d XKey.default).isSome then pure ()
+    else match fns.find? (fun outs => (klookup d (keyOf outs)).isNone) with
+      | some outs => throw (.uncovered outs)
+      | none => pure ()
 
 /-- where the tasks of a function go -/
 inductive Choice (ε : Type)
@@ -89,6 +109,7 @@ def selectGens {ε} (d : Option (List (XKey × ε))) : Nat → List (List (List 
 def selectAll {ε} (parallel : Bool) (pool : ε) (arg : ExecArg ε) (gens : List (List (List String))) :
     Except XErr (List (List (List String × Choice ε))) := do
   let d ← normalise parallel arg
+  validateNames d gens.flatten
   selectGens (maybeExecutor parallel pool d) 0 gens
 
 end PF.SchedX
